@@ -179,4 +179,18 @@ def run(tier, seed):
 
 
 def replay(path):
+    import json
+    d = json.load(open(path))
+    w = d['witness']
+    if 'hostile' in w:
+        label = d['key'].split('|')[-1].rsplit(' in ', 1)[0]
+        t = (w['state'], [(label, bytes.fromhex(w['hostile']))])
+        a, b = hostile_task(t), hostile_task(t)
+        if repr(a) != repr(b):
+            print('HARNESS-ERROR: replay is not deterministic')
+            return 2
+        print('state', w['state'], 'frame', w['hostile'][:600])
+        for k, det in a[1]:
+            print(k, json.dumps({x: det[x] for x in ('reported', 'counted')}))
+        return 1 if d['key'] in [k for k, _ in a[1]] else 0
     return generic_replay(path, Harness())
